@@ -81,6 +81,11 @@ enum Mode {
     Never,
     AlwaysAnsi,
     Strip, // StripStream directly
+    /// the same streams built over `Box<SharedOut>` / `&mut SharedOut` (the forwarding impls of
+    /// RawStream / AsLockedWrite for wrapper types)
+    NeverBoxed,
+    StripBoxed,
+    AnsiMutRef,
 }
 
 #[derive(Clone, Copy, Debug)]
@@ -111,17 +116,20 @@ fn op_input(op: Op) -> Vec<u8> {
 fn expected_output(mode: Mode, op: Op) -> Vec<u8> {
     let input = op_input(op);
     match mode {
-        Mode::AlwaysAnsi => input,
-        Mode::Never | Mode::Strip => vmodel::strip::StripModel::default().expected_exact(&input),
+        Mode::AlwaysAnsi | Mode::AnsiMutRef => input,
+        Mode::Never | Mode::Strip | Mode::NeverBoxed | Mode::StripBoxed => vmodel::strip::StripModel::default().expected_exact(&input),
     }
 }
 
-enum AnyStream {
+enum AnyStream<'a> {
     Auto(anstream::AutoStream<SharedOut>),
     Strip(anstream::StripStream<SharedOut>),
+    AutoBoxed(anstream::AutoStream<Box<SharedOut>>),
+    StripBoxed(anstream::StripStream<Box<SharedOut>>),
+    AutoRef(anstream::AutoStream<&'a mut SharedOut>),
 }
 
-fn run_op(s: &mut AnyStream, op: Op) {
+fn run_op(s: &mut AnyStream<'_>, op: Op) {
     macro_rules! go {
         ($s:expr) => {
             match op {
@@ -136,6 +144,9 @@ fn run_op(s: &mut AnyStream, op: Op) {
     match s {
         AnyStream::Auto(s) => go!(s),
         AnyStream::Strip(s) => go!(s),
+        AnyStream::AutoBoxed(s) => go!(s),
+        AnyStream::StripBoxed(s) => go!(s),
+        AnyStream::AutoRef(s) => go!(s),
     }
 }
 
@@ -161,7 +172,14 @@ fn scenarios() -> Vec<Scenario> {
     let k0 = Op::Lit(0);
     let k1 = Op::Lit(1);
     let mut v = vec![];
-    for (mode, mn) in [(Mode::Never, "never"), (Mode::AlwaysAnsi, "always_ansi"), (Mode::Strip, "strip")] {
+    for (mode, mn) in [
+        (Mode::Never, "never"),
+        (Mode::AlwaysAnsi, "always_ansi"),
+        (Mode::Strip, "strip"),
+        (Mode::NeverBoxed, "never-over-Box"),
+        (Mode::StripBoxed, "strip-over-Box"),
+        (Mode::AnsiMutRef, "always_ansi-over-&mut"),
+    ] {
         v.push(Scenario { chunk: usize::MAX, name: leak(format!("{mn}/2x1/fmt-fmt")), mode, threads: vec![vec![f1], vec![f2]], preemptions: 3, thorough_only: false });
         v.push(Scenario { chunk: usize::MAX, name: leak(format!("{mn}/2x1/line-all")), mode, threads: vec![vec![l1], vec![w1]], preemptions: 3, thorough_only: false });
         v.push(Scenario { chunk: usize::MAX, name: leak(format!("{mn}/2x1/lit-lit")), mode, threads: vec![vec![k0], vec![k1]], preemptions: 3, thorough_only: false });
@@ -237,10 +255,14 @@ fn run_stream_scenario(sc: &'static Scenario) -> Value {
                 let out = sink.clone();
                 loom::thread::spawn(move || {
                     // like `anstream::stdout()`: every print call builds its stream over the shared handle
+                    let mut out = out;
                     let mut s = match sc.mode {
                         Mode::Never => AnyStream::Auto(anstream::AutoStream::never(out)),
                         Mode::AlwaysAnsi => AnyStream::Auto(anstream::AutoStream::always_ansi(out)),
                         Mode::Strip => AnyStream::Strip(anstream::StripStream::new(out)),
+                        Mode::NeverBoxed => AnyStream::AutoBoxed(anstream::AutoStream::never(Box::new(out))),
+                        Mode::StripBoxed => AnyStream::StripBoxed(anstream::StripStream::new(Box::new(out))),
+                        Mode::AnsiMutRef => AnyStream::AutoRef(anstream::AutoStream::always_ansi(&mut out)),
                     };
                     for &op in ops {
                         run_op(&mut s, op);
